@@ -1,5 +1,5 @@
 (* C18 -- DC sync set-up and per-cycle timing arithmetic are exact and total. *)
-From EC Require Import Base.Prelude Base.Bytes Cycle.Cycle Dc.Sync Dc.SyncProofs.
+From EC Require Import Base.Prelude Base.Bytes Cycle.Cycle Dc.Sync Dc.SyncProofs Gen.SrcRegisters.
 Local Open Scope N_scope.
 
 (* Only the reference clock is read and only SubDevices that support DC and asked for SYNC are
@@ -73,3 +73,11 @@ Theorem c18_cycle : forall md time period shift,
   shift < (period - time mod period) + shift <= period + shift.
 Proof. exact cycle_arith. Qed.
 Print Assumptions c18_cycle.
+
+(* the register addresses the model writes are the ones declared in src/register.rs (regenerated
+   from the sources on every run) *)
+Theorem c18_register_addresses :
+  reg_system_time = reg_DcSystemTime /\ reg_sync_active = reg_DcSyncActive /\
+  reg_start_time = reg_DcSyncStartTime /\ reg_sync0_cycle = reg_DcSync0CycleTime /\ reg_sync1_cycle = reg_DcSync1CycleTime.
+Proof. repeat split; reflexivity. Qed.
+Print Assumptions c18_register_addresses.
